@@ -158,7 +158,7 @@ def depth_guard(rep: C.Report) -> None:
             v = rep.violation(sig, what, {"kind": "deep-chain"})
             ob.verdict = C.VIOLATED if v.known is None else C.KNOWN
         else:
-            ob.detail += f"guard bypass on syntactic path(s) {bad[:4]} but a 400-deep template chain is still cut in-band -> inconclusive"
+            ob.detail += f"guard bypass on syntactic path(s) {bad[:4]} but a 400-deep template chain and 300..1200 calls nested through arguments / names are still cut in-band -> inconclusive"
     except Exception as e:  # noqa: BLE001
         ob.detail += f"{type(e).__name__}: {e}"
 
@@ -298,6 +298,22 @@ def replay_deep_chain(depth: int = 400):
             if bad:
                 out = (f"expand({doc!r}{', ' + kwt if kwt else ''}) with templates c0 -> c1 -> ... -> c{depth}", True, what)
                 break
+        # calls nested through their ARGUMENTS or NAMES on one page (no template body involved): the limit is also what
+        # keeps the interpreter's own recursion bounded for these
+        if out is None:
+            for opener, closer, n in (("{{#if:x|", "}}", 300), ("{{#ifeq:a|a|", "}}", 300), ("{{#switch:a|a=", "}}", 300), ("{{#iferror:x|y|", "}}", 300), ("{{c%d|" % depth, "}}", 300), ("{{lc:", "}}", 1200), ("{{#if:", "|a|b}}", 300)):
+                ctx.start_page("T")
+                ctx.expand_stack = []
+                try:
+                    r = ctx.expand(opener * n + "x" + closer * n)
+                    bad, what = not isinstance(r, str), "does not return a string"
+                except RecursionError:
+                    bad, what = True, f"expand() raises RecursionError for {n} calls nested in one another (the depth limit does not cut the nesting in-band)"
+                except Exception as e:  # noqa: BLE001
+                    bad, what = True, f"expand() raises {type(e).__name__}: {e}"
+                if bad:
+                    out = (f"expand({opener!r} * {n} + 'x' + {closer!r} * {n})", True, what)
+                    break
     finally:
         sys.setrecursionlimit(old)
         close(ctx)
